@@ -1379,6 +1379,11 @@ class QueryBuilder(Selectable, Term):  # type:ignore[misc]
         how: JoinType = JoinType.inner,
     ) -> "Joiner":
         if isinstance(item, Table):
+            # (aliased here already, so that on_field() / using() build their condition on the occurrence that is joined)
+            item = self._alias_repeated_table(
+                item,
+                self._from + [self._update_table] + self._with + [j.item for j in self._joins],
+            )
             return Joiner(self, item, how, type_label="table")
 
         elif isinstance(item, QueryBuilder):
